@@ -128,6 +128,7 @@ def oracle(item, impl):
     seen_inputs = {inputs(shape, sig)}
     manual_vals = []
     resolved = {}
+    parked = {}          # awaiter -> wake count right after it was last polled and stayed pending
     for j, e in enumerate(evs):
         if e[0] == 0 and e[1] < 3:
             sig[e[1]] = e[2]
@@ -141,6 +142,12 @@ def oracle(item, impl):
         if val not in ok_vals:
             return "event %d: a synchronous read returns %r, which is neither an earlier result nor none" % (j, val)
         for k, a in enumerate(o[3]):
+            if a[0] == 0:
+                if e[0] == 8 and e[1] == k:
+                    parked[k] = a[1]
+                # an awaiter that parked while the node was loading is woken when loading goes off
+                if k in parked and o[1] == 0 and a[1] <= parked[k] and not (e[0] == 8 and e[1] == k):
+                    return "event %d: loading is off but awaiter %d, parked earlier, was never woken" % (j, k)
             if a[0] == 2:
                 return "event %d: awaiter %d panicked" % (j, k)
             if a[0] == 1 and k not in resolved:
